@@ -4,6 +4,7 @@ package gen
 
 import (
 	"bytes"
+	"fmt"
 	"sort"
 
 	"pgregory.net/rapid"
@@ -15,7 +16,7 @@ import (
 // Keys draws a pool of n distinct non-empty keys in one of several shapes.
 func Keys(t *rapid.T, minN, maxN int) [][]byte {
 	n := rapid.IntRange(minN, maxN).Draw(t, "nkeys")
-	shape := rapid.SampledFrom([]string{"ascii", "ascii", "binary", "prefixchain", "longprefix", "adjacent", "huge"}).Draw(t, "keyshape")
+	shape := rapid.SampledFrom([]string{"ascii", "ascii", "binary", "prefixchain", "longprefix", "adjacent", "huge", "composite"}).Draw(t, "keyshape")
 	seen := map[string]bool{}
 	var out [][]byte
 	add := func(k []byte) {
@@ -64,6 +65,15 @@ func Keys(t *rapid.T, minN, maxN int) [][]byte {
 			b := byte(rapid.IntRange('a', 'h').Draw(t, "c"))
 			l := rapid.IntRange(1, 2).Draw(t, "l")
 			add(bytes.Repeat([]byte{b}, l))
+		}
+	case "composite":
+		// the varying field sits in the middle: shared head, field, shared tail
+		head := []byte(rapid.StringMatching(`[a-c/]{0,10}`).Draw(t, "head"))
+		tails := [][]byte{[]byte(rapid.StringMatching(`[/a-z]{1,14}`).Draw(t, "tail1")), []byte(rapid.StringMatching(`[/a-z]{1,14}`).Draw(t, "tail2"))}
+		w := rapid.IntRange(1, 6).Draw(t, "fieldw")
+		for tries := 0; len(out) < n && tries < 10*n; tries++ {
+			f := []byte(fmt.Sprintf("%0*d", w, rapid.IntRange(0, 999999).Draw(t, "field")))
+			add(append(append(append([]byte{}, head...), f[len(f)-w:]...), tails[rapid.IntRange(0, 1).Draw(t, "tailpick")]...))
 		}
 	case "huge":
 		add(bytes.Repeat([]byte{'z'}, 4096))
